@@ -3,14 +3,14 @@ import core
 from checks.generic import standard, compile_gen, first_index, COMMON_TRUSTED
 
 PROPS = ["c20_published", "c20_published_sites", "c20_site_verdict_needed", "c20_issue_delivered",
-         "c20_nonblocking", "c20_order", "c20_order_complete",
+         "c20_nonblocking", "c20_order", "c20_order_complete", "c20_lagging_reader_complete",
          "c20_roundtrip", "c20_expire", "c20_expire_only_old", "c20_history", "c20_loop_request", "c20_loop_saved",
          "c20_old_aws_refuted", "c20_old_roundtrip_refuted", "c20_old_expire_refuted"]
 
 TRUSTED = [
     "encoding/gob, bufio and Dominator fsutil.CreateRenamingWriter between saveEvents and loadEvents (run for real on every save/reload, not modelled)",
     "Go channel semantics: a buffered channel of capacity k accepts a non-blocking send iff it holds fewer than k elements (the model's try_send); the Go scheduler / memory model",
-    "harness/eventnotifier/verif_export.go: registers a subscriber channel with the three statements of handleConnection (one history also uses the real CONNECT stream)",
+    "harness/eventnotifier/verif_export.go: registers a subscriber channel with the three statements of handleConnection (one history also uses the real CONNECT stream); TestVerif_C20S uses only the exported ServeHTTP with a hijackable writer over net.Pipe",
     "the recorder harness sets CreateTime of the event just recorded (recordEvent stamps time.Now() itself); expiry and load read the real clock",
     "tools/extract c20.go: signing-site table (handler reachability by name, lexical order of publish and response) and notifier send table",
     "fake STS endpoint in front of the cloud-role path",
@@ -38,13 +38,17 @@ def run(ctx):
     base = os.path.join(ctx.work, "base_eventrecorder.go")
     open(base, "w").write(open(os.path.join(core.VERIF, "harness", "base", "base.go")).read().replace("package verifbase", "package eventrecorder", 1))
     from concurrent.futures import ThreadPoolExecutor
-    with ThreadPoolExecutor(max_workers=2) as ex:
+    with ThreadPoolExecutor(max_workers=3) as ex:
+        # subscribers on the production connection path only (no file added to the notifier package)
+        f3 = ex.submit(ctx.go_harness, "cmd/keymasterd", "TestVerif_C20S",
+                       ["kmd/common.go", "kmd/creds.go", "kmd/c20s.go", os.path.join(ctx.work, "gen", "mux_gen.go")])
         f1 = ex.submit(ctx.go_harness, "cmd/keymasterd", "TestVerif_C20",
                        ["kmd/common.go", "kmd/creds.go", "kmd/consts.go", "kmd/c20.go", os.path.join(ctx.work, "gen", "mux_gen.go")],
                        extra_overlay={os.path.join(core.REPO, "keymasterd", "eventnotifier", "zz_verif_export.go"): export})
         f2 = ex.submit(ctx.go_harness, "eventmon/eventrecorder", "TestVerif_C20R", [base, "eventrecorder/c20r.go"])
         ok, result, log = f1.result()
         rec_ok, rec_result, rec_log = f2.result()
+        s_ok, s_result, s_log = f3.result()
     if compile_gen(ctx, names=("Tables.v",)):
         ctx.gen_obligations("Obl_C20.v", ["c20_sites_cover", "c20_sends_nonblocking", "c20_sites_publish", "c20_sites_reported"])
     jobs = []
@@ -56,6 +60,9 @@ def run(ctx):
         for n in ["CasesC20R.v"] + ["CasesC20R_%d.v" % i for i in range(1, shards)]:
             jobs.append((n, "c20r_mismatches", "CasesC20R.idx",
                          "recorder (" + n + "): expiry flags and per-user lists after every save/reload and at the end = model (%s operations)", "c20r_ncases"))
+    if s_result is not None:
+        jobs.append(("CasesC20S.v", "c20s_mismatches", "CasesC20S.idx",
+                     "subscribers on the production connection path with every lag 0..15: queue never full, stream handed to each = the published sequence (%s publishes and reads)", "c20s_ncases"))
     if rec_result is not None:
         jobs.append(("CasesC20L.v", "c20l_mismatches", "CasesC20L.idx",
                      "recorder event loop: every history answer and every saved file = model (%s scenarios)", "c20l_ncases"))
